@@ -340,6 +340,46 @@ def run(ctx):
                     if why:
                         ctx.violation("eiggrad/scaled-spectrum/%s" % method, "symeig(%s, bck_options %s) on a well separated spectrum scaled by %g: %s" % (method, bck, scale, why),
                                       {"scale": scale, "method": method, "bck": bck})
+        # ---- the forward decomposition runs while the operator's parameters are substituted (uselinopparams); differentiation happens
+        #      after the block has ended, and the operator object is used again with other parameters in between
+        from props.c02 import NonlinOp as _NonlinOp
+        for method in ("custom_exacteig", "davidson"):
+            for withM in (False, True):
+                ntab += 1
+                ctx.case(key=("substituted-forward", method, withM))
+                n, neig = 5, 2
+                S0, _ = build(n, spectrum_for((False,), n), False, g)
+                p_orig = (torch.randn(n, generator=g, dtype=DT) * 0.3).requires_grad_()
+                p_sub = (torch.randn(n, generator=g, dtype=DT) * 0.3).requires_grad_()
+                M0 = None
+                if withM:
+                    Qm, _ = torch.linalg.qr(torch.randn(n, n, generator=g, dtype=DT))
+                    M0 = (Qm * torch.linspace(0.8, 1.4, n, dtype=DT)) @ Qm.T
+                G = sym(torch.randn(n, n, generator=g, dtype=DT))
+                blocks = [[0], [1]]
+                why = None
+                try:
+                    A = _NonlinOp(S0, p_orig, torch.exp)
+                    M = LinearOperator.m(M0, is_hermitian=True) if withM else None
+                    kw = {"min_eps": 1e-12} if method == "davidson" else {}
+                    with A.uselinopparams(p_sub):
+                        ev, evec = xitorch.linalg.symeig(A, neig=neig, mode="lowest", M=M, method=method, **kw)
+                    # the operator is used again, with its own parameter, before the first result is differentiated
+                    ev_b, evec_b = xitorch.linalg.symeig(A, neig=neig, mode="lowest", M=M, method=method, **kw)
+                    L = loss_fn(ev, evec, blocks, G, None)
+                    ga = torch.autograd.grad(L, [p_sub, p_orig], allow_unused=True)
+                    Ld = dense_loss(S0 + torch.diag(torch.exp(p_sub)), M0, neig, blocks, G)
+                    gr, = torch.autograd.grad(Ld, p_sub)
+                    tol = 1e-6 if method != "davidson" else 1e-4
+                    if ga[1] is not None and float(ga[1].abs().max()) > 0:
+                        why = "the operator's own parameter, which did not enter this decomposition, received a non-zero gradient"
+                    elif ga[0] is None or not torch.allclose(ga[0], gr, atol=tol, rtol=tol):
+                        why = "gradient w.r.t. the substituted parameter differs from the dense reference by %s" % ("(absent)" if ga[0] is None else "%.2e" % float((ga[0] - gr).abs().max()))
+                except Exception as e:
+                    why = "raised %s: %s" % (type(e).__name__, str(e)[:140])
+                if why:
+                    ctx.violation("eiggrad/substituted-forward/%s" % method, "symeig(%s%s) run inside uselinopparams, differentiated after the block: %s" % (method, ", with M" if withM else "", why),
+                                  {"method": method, "M": withM})
         # ---- operators that depend non-linearly on their own parameter tensor (second order needs the explicit d2A/dp2 term)
         from props.c02 import NonlinOp
         for method in ("custom_exacteig", "davidson"):
